@@ -140,7 +140,7 @@ def run_history(api, rnd, tid, lines, tracks, attached, edits, prefill, fresh=Fa
         if fail_at is not None:       # the callable raised but the edit "completed": the failure was swallowed
             ev.append({"op": "fail", "outcome": "swallowed:" + exc.__name__, "post": contents(pat)})
             continue
-        owned = [n.pattern is pat for line in pat.data for n in line]
+        owned = [getattr(n, "pattern", None) is pat for line in pat.data for n in line]      # (something that is no Note owns nothing)
         acc = []
         for line in pat.data:
             for n in line:
